@@ -70,26 +70,30 @@ extern "C" void c10_proper()
 }
 
 // angles -> rotation (or quaternion) -> angles: same angles modulo 2 pi
-extern "C" void c10_angles_roundtrip()
+template<typename S>
+static void angles_roundtrip()
 {
   RPY a = rpy();
-  Eigen::Vector3d ang(a.r, a.p, a.y);
-  Eigen::Matrix3d R = reference(a);
-  vf_cut(R.data(), 9, "R");
+  Eigen::Matrix3d Rd = reference(a);
+  vf_cut(Rd.data(), 9, "R");
+  Eigen::Matrix<S, 3, 3> R = Rd.template cast<S>();
   // facts about the reference matrix used by the inverse (proved with the definitions, then assumed)
   vf_lemma(vf_eq(R(2, 0), -std::sin(a.p)), "R20-is-minus-sin-pitch");
   vf_lemma(vf_eq(R(2, 1), std::cos(a.p) * std::sin(a.r)) & vf_eq(R(2, 2), std::cos(a.p) * std::cos(a.r)), "R21-R22");
   vf_lemma(vf_eq(R(1, 0), std::sin(a.y) * std::cos(a.p)) & vf_eq(R(0, 0), std::cos(a.y) * std::cos(a.p)), "R10-R00");
-  Eigen::Vector3d back = rotation3DToEulerAngles(R);
+  Eigen::Matrix<S, 3, 1> back = rotation3DToEulerAngles<S>(R);
   vf_check(vf_angle_congruent(back[0], a.r), "roll-recovered-modulo-2pi");
   vf_check(vf_angle_congruent(back[1], a.p), "pitch-recovered-modulo-2pi");
   vf_check(vf_angle_congruent(back[2], a.y), "yaw-recovered-modulo-2pi");
   for (int k = 0; k < 3; ++k) {vf_check((back[k] >= 0) & (back[k] <= 2 * vf_pi()), "angles-normalised-to-[0,2pi]");}
   vf_reach("angles_roundtrip");
 }
+extern "C" void c10_angles_roundtrip() { angles_roundtrip<double>(); }
+extern "C" void c10_angles_roundtrip_f() { angles_roundtrip<float>(); }
 
 // any proper rotation -> angles -> rotation
-extern "C" void c10_rotation_roundtrip()
+template<typename S>
+static void rotation_roundtrip()
 {
   static const char * RN[9] = {"r00", "r10", "r20", "r01", "r11", "r21", "r02", "r12", "r22"};
   Eigen::Matrix3d R;
@@ -101,7 +105,9 @@ extern "C" void c10_rotation_roundtrip()
   Eigen::Vector3d c2 = R.col(0).cross(R.col(1));
   vf_assume((R(0, 2) == c2[0]) & (R(1, 2) == c2[1]) & (R(2, 2) == c2[2]));
   vf_assume((R(2, 0) <= 1 - 1e-6) & (R(2, 0) >= -(1 - 1e-6)));
-  Eigen::Vector3d ang = rotation3DToEulerAngles(R);
+  Eigen::Matrix<S, 3, 3> Rs = R.template cast<S>();
+  Eigen::Matrix<S, 3, 1> angs = rotation3DToEulerAngles<S>(Rs);
+  Eigen::Vector3d ang = angs.template cast<double>();
   const double cp = std::cos(ang[1]), sp = std::sin(ang[1]);
   vf_lemma(vf_eq(sp, -R(2, 0)), "sin-pitch-is-minus-R20");
   vf_lemma(cp > 0, "cos-pitch-positive");
@@ -115,6 +121,8 @@ extern "C" void c10_rotation_roundtrip()
   }
   vf_reach("rotation_roundtrip");
 }
+extern "C" void c10_rotation_roundtrip() { rotation_roundtrip<double>(); }
+extern "C" void c10_rotation_roundtrip_f() { rotation_roundtrip<float>(); }
 
 // non-unit quaternions describe the same rotation
 extern "C" void c10_quaternion_scale()
@@ -159,6 +167,22 @@ static void normalisers()
   vf_reach("normalisers");
 }
 extern "C" void c10_normalisers_d() { normalisers<double>(); }
+extern "C" void c10_normalisers_f() { normalisers<float>(); }
+
+// float builders: same formulae over the reals
+extern "C" void c10_builders_f()
+{
+  RPY a = rpy();
+  Eigen::Vector3f ang((float)a.r, (float)a.p, (float)a.y);
+  Eigen::Matrix3d Rref = reference(a);
+  Eigen::Matrix3f Rm = eulerAnglesToRotation3D<float>(ang);
+  for (int i = 0; i < 3; ++i) {
+    for (int j = 0; j < 3; ++j) {vf_check(vf_eq(Rm(i, j), Rref(i, j)), "angles-to-rotation-is-RzRyRx");}
+  }
+  Eigen::Vector3f back = quaternionToEulerAngles<float>(eulerAnglesToQuaternion<float>(ang));
+  vf_check(vf_angle_congruent(back[0], a.r) & vf_angle_congruent(back[1], a.p) & vf_angle_congruent(back[2], a.y), "angles-quaternion-angles-modulo-2pi");
+  vf_reach("builders_f");
+}
 
 // polar / spherical
 extern "C" void c10_polar()
